@@ -225,7 +225,7 @@ class Run:
     pass
 
 
-def run_solver(method, shape, vs, m1, m2, o, weight=None, fault_at=None, sched=None):
+def run_solver(method, shape, vs, m1, m2, o, weight=None, fault_at=None, sched=None, then=None):
     """Execute the real solver once.
 
     fault_at: 1-based index of the in-loop linear_solve call (= iteration index + 1) that raises once.
@@ -325,6 +325,26 @@ def run_solver(method, shape, vs, m1, m2, o, weight=None, fault_at=None, sched=N
         res.flux = res.solution[: grid.num_faces]
         res.pressure = res.solution[grid.num_faces : grid.num_faces + grid.num_cells]
         res.raw_info = res.captured[2]
+    # a second computation on the SAME solver object (another pair of masses)
+    res.second = None
+    if then is not None and opts.get("return_info"):
+        sec = Run()
+        sec.exc, sec.obj, sec.grid = None, obj, grid
+        sec.weight_ratio, sec.system_scale, sec.initial_solution = 1.0, 0.0, None
+        first_ratio, first_scale, first_captured = res.weight_ratio, res.system_scale, res.captured
+        res.weight_ratio, res.system_scale = 1.0, 0.0
+        res.captured = None
+        try:
+            sec.distance, sec.info = obj(make_image(then[0], vs), make_image(then[1], vs))
+            sec.captured = res.captured
+            sec.solution = np.asarray(sec.captured[1], dtype=float)
+            sec.flux = sec.solution[: grid.num_faces]
+            sec.pressure = sec.solution[grid.num_faces : grid.num_faces + grid.num_cells]
+            sec.weight_ratio, sec.system_scale = res.weight_ratio, res.system_scale
+        except Exception as e:  # noqa: BLE001
+            sec.exc = e
+        res.weight_ratio, res.system_scale, res.captured = first_ratio, first_scale, first_captured
+        res.second = sec
     return res
 
 
